@@ -210,6 +210,7 @@ func init() {
 	reg("Matches", func(fr *frame, a []value) value {
 		pat := a[1].(string)
 		if s, ok := a[0].(sym); ok && s.k == sStr {
+			fr.i.x.patFacts(pat, s)
 			return mkBool("(" + internPat(pat) + " " + s.t + ")")
 		}
 		panic(unsupported("Matches on a concrete string"))
